@@ -7,9 +7,18 @@ Two legs:
       (proved for all traces), that no two conflicting accesses to a tracked field are unordered by
       happens-before in any execution that holds at least the locks the table records.
       Rows that break the discipline are the violations (key from the function / field of the row).
+      The extractor also reports function-local variables shared between goroutines (captured by
+      `go func` closures): an unordered conflicting pair with no synchronisation in sight is a violation
+      (key race-<func>.<var>), the undecidable rest is a needs-dynamic list the race workloads cover.
   (2) search for concrete races: -race builds of in-package workloads (broker herd + metrics printer +
-      scrapes, turbotunnel queue/client-map stress, client Peers churn, proxy traffic logger / tokens,
-      server carriers). Every `WARNING: DATA RACE` report is a violation; the report is the replay.
+      scrapes, broker over real HTTP on every route, turbotunnel queue/client-map stress, client Peers
+      churn, proxy traffic logger / tokens / periodic NAT retest while polling, server carriers, server
+      carriers failing in both directions at once). Every `WARNING: DATA RACE` report is a violation;
+      the report is the replay.
+  (3) recorded executions: the extractor writes instrumented COPIES of the scanned sources (lock
+      operations, tracked-field accesses, go statements log themselves), the trace tests run in binaries
+      built from them, and the EXTRACTED, proved-sound `check_trace` (C20_trace_check_sound) checks
+      every recorded trace against the generated table: well formed, respects the table.
 """
 import concurrent.futures
 import hashlib
@@ -25,6 +34,7 @@ import vlib
 # ordered: first match wins. Matched against function names and source lines of the top frames
 # (race reports) or against "<func> <field>" of a table row.
 KEY_RULES = [
+    (r"newSignalingServer", "race-newSignalingServer"),
     (r"roundedCounter", "race-roundedCounter"),
     (r"zeroMetrics", "race-zeroMetrics"),
     (r"bytesSyncLogger", "race-bytesSyncLogger"),
@@ -34,10 +44,27 @@ KEY_RULES = [
 ]
 
 
+# The SIGHUP path of the broker (Metrics.LoadGeoipDatabases while polls are served): Metrics.geoipdb in the tracked list and a
+# reload goroutine in the HTTP soak.  On by default since /repo 8c17ea8 takes the metrics lock in LoadGeoipDatabases
+# (proposed-fixes/C20-geoip-reload-lock.diff); a tree without that lock gives `race-Metrics.geoipdb` (table row + race report).
+# VERIF_C20_GEOIP_RELOAD=0 switches both off.
+GEOIP_RELOAD = os.environ.get("VERIF_C20_GEOIP_RELOAD", "1") == "1"
+
 TRACKED = []     # "Type.field" names of the table, filled by table_leg (longest first)
+LOCALS = []      # (function, variable) of captured locals the extractor could not decide, filled by table_leg
+# functions with captured locals that need the dynamic check -> the race workloads that run them
+DYNAMIC_COVER = {
+    "turbotunnelMode": ["server", "server-bothfail"],
+    "main": [],                                   # broker main(): flag parsing + signal handling, not run in-package
+    "NewSnowflakeClient": ["peers"],
+    "SnowflakeProxy.makePeerConnectionFromOffer": ["nat-retest"],
+}
 
 
 def key_from_text(txt, fallback):
+    for fn, var in LOCALS:   # a captured local named on a racing line of its function
+        if re.search(r"\b%s\b" % re.escape(fn.split(".")[-1]), txt) and re.search(r"\b%s\b" % re.escape(var), txt):
+            return "race-%s.%s" % (fn.split(".")[-1], var)
     for pat, key in KEY_RULES:
         if re.search(pat, txt):
             return key
@@ -71,6 +98,15 @@ def workloads(tier, seed):
                       env=dict(VERIF_C20_N="8", VERIF_SEED=str(s)), timeout=120))
         w.append(dict(name="server", pkg="./server/lib", cwd="server/lib", run="^TestVerifC20ServerCarriers$",
                       env=dict(VERIF_C20_N="48" if th else "12", VERIF_SEED=str(s)), timeout=120))
+        w.append(dict(name="server-bothfail", pkg="./server/lib", cwd="server/lib", run="^TestVerifC20ServerBothFail$",
+                      env=dict(VERIF_C20_N="96" if th else "32", VERIF_SEED=str(s)), timeout=120))
+    # whole-component workloads: the broker over real HTTP on every route; a proxy with periodic NAT retest
+    for s in seeds[: (6 if th else 1)]:
+        w.append(dict(name="broker-http", pkg="./broker", cwd="broker", run="^TestVerifC20BrokerHTTPSoak$",
+                      env=dict(VERIF_C20_N="160" if th else "32", VERIF_C20_IDLE="4" if th else "2", VERIF_SEED=str(s),
+                               VERIF_C20_GEOIP_RELOAD="1" if GEOIP_RELOAD else "0"), timeout=180))
+        w.append(dict(name="nat-retest", pkg="./proxy/lib", cwd="proxy/lib", run="^TestVerifC20NATRetest$",
+                      env=dict(VERIF_C20_N="6" if th else "4", VERIF_C20_MS="8000" if th else "1500", VERIF_SEED=str(s)), timeout=180))
     return w
 
 
@@ -102,6 +138,12 @@ def parse_reports(stderr):
                 tops.append(dict(fn=fn.split("/")[-1], site="%s:%s" % (os.path.relpath(path, vlib.REPO) if path.startswith(vlib.REPO) else path, ln), src=src))
                 texts.append(fn + " " + src)
         fb = "race-" + "@".join(sorted(set(re.sub(r"[^A-Za-z0-9_.]", "", t["fn"].split(".", 1)[-1]) for t in tops))) if tops else "race-unknown"
+        # both racing accesses are in closures of one function and store to the same local: race-<func>.<var>
+        if len(tops) == 2:
+            fns = [re.match(r"(?:.*\.)?(\w+)\.(?:func\d+|gowrap\d+)", t["fn"]) for t in tops]
+            lhs = [re.match(r"\s*(\w+)\s*(?:=[^=]|\+\+|--|[-+*/|&^]=)", t["src"]) for t in tops]
+            if all(fns) and all(lhs) and fns[0].group(1) == fns[1].group(1) and lhs[0].group(1) == lhs[1].group(1):
+                fb = "race-%s.%s" % (fns[0].group(1), lhs[0].group(1))
         out.append(dict(key=key_from_text(" ".join(texts), fb), tops=tops, text=("WARNING: DATA RACE" + blk)[:6000]))
     return out
 
@@ -160,6 +202,7 @@ def race_leg(ctx):
 
 PKGS = ["/broker", "/common/turbotunnel", "/server/lib", "/client/lib", "/proxy/lib"]
 GEN = os.path.join(vlib.COQ, "Gen", "AccessTable.v")
+INSTR = os.path.join(vlib.GOB, "instr")      # instrumented copies of the scanned sources (trace leg)
 
 
 def extract_table():
@@ -174,21 +217,27 @@ def extract_table():
     open(lst, "w").write(out)
     vout = os.path.join(vlib.GOB, "AccessTable.v")
     jout = os.path.join(vlib.GOB, "access_table.json")
-    rc, out, err = vlib.sh([exe, "-list", lst, "-root", vlib.REPO, "-coq", vout, "-json", jout] + PKGS, timeout=300)
+    rc, out, err = vlib.sh([exe, "-list", lst, "-root", vlib.REPO, "-coq", vout, "-json", jout, "-instr", INSTR] + PKGS, timeout=300,
+                           env=dict(os.environ, VERIF_C20_GEOIP_RELOAD="1" if GEOIP_RELOAD else "0"))
     if rc != 0:
         raise vlib.GoBuildError("locktable extractor failed: " + err[-2000:])
     return open(vout).read(), json.load(open(jout))
 
 
+def strip_r(g):
+    return g[:-2] if g.endswith("#R") else g
+
+
 def field_ok(rows):
-    """python mirror of LockTrace.field_ok (reporting only; the verdict is Coq's)"""
+    """python mirror of LockTrace.field_ok (reporting only; the verdict is Coq's): a common lock g such that
+    every row that is not a plain read holds it in WRITE mode (lists the name without #R)"""
     live = [r for r in rows if r["kind"] != "init"]
     if all(r["kind"] == "atomic" for r in live) or all(r["kind"] == "read" for r in live):
         return True
     common = set(live[0]["held"])
     for r in live[1:]:
         common &= set(r["held"])
-    return bool(common)
+    return any(not strip_r(g).endswith("#R") and all(r["kind"] == "read" or strip_r(g) in r["held"] for r in live) for g in common)
 
 
 def culprits(rows):
@@ -199,6 +248,10 @@ def culprits(rows):
         for g in r["held"]:
             if not g.endswith("#R"):
                 cnt[g] = cnt.get(g, 0) + 1
+    for r in live:       # a lock that is only ever held in read mode still names the guard
+        for g in r["held"]:
+            if g.endswith("#R"):
+                cnt.setdefault(g[:-2], 0)
     if cnt:
         g = max(sorted(cnt), key=lambda k: cnt[k])
         bad = [r for r in live if g not in r["held"] and (g + "#R" not in r["held"] or r["kind"] != "read")]
@@ -257,6 +310,7 @@ def table_leg(ctx):
                         pass
         ctx.proof = vlib.proof_status(ctx.cid)
     rows = doc["rows"]
+    ctx.extra["instrumented_sites"] = dict(json.load(open(os.path.join(INSTR, "overlay.json"))), Replace=None)
     by_field = {}
     for r in rows:
         by_field.setdefault(r["field"], []).append(r)
@@ -282,12 +336,34 @@ def table_leg(ctx):
         g = groups.setdefault(key, dict(fields=[], rows=[]))
         g["fields"].append(dict(field=f, prevailing_guard=guard))
         g["rows"] += [dict(site=r["site"], fn=r["fn"], field=r["field"], kind=r["kind"], held=r["held"]) for r in bad]
+    # function-local variables shared between goroutines
+    loc = doc.get("captured_locals", [])
+    LOCALS[:] = [(c["fn"], c["var"]) for c in loc]
+    nd = []
+    for c in loc:
+        case = "local %s %s %s" % (c["fn"], c["var"], c["verdict"])
+        ctx.count(case, kind="captured-local-" + c["verdict"])
+        if c["verdict"] == "violation":
+            ctx.violation("race-%s.%s" % (c["fn"].split(".")[-1], c["var"]),
+                          "local variable `%s` of %s (declared %s) is accessed by several goroutines with no lock in common and no "
+                          "synchronisation that could order the accesses: %s" %
+                          (c["var"], c["fn"], c["decl"], "; ".join("%s / %s" % (p["A"], p["B"]) for p in c["pairs"][:3])),
+                          dict(kind="captured-local", fn=c["fn"], var=c["var"], decl=c["decl"], pairs=c["pairs"]))
+        else:
+            cover = DYNAMIC_COVER.get(c["fn"])
+            nd.append(dict(fn=c["fn"], var=c["var"], decl=c["decl"], covered_by=cover, pairs=c["pairs"][:2]))
+            if cover is None:
+                ctx.not_shown("captured local `%s` of %s (%s) needs the dynamic check and no race workload is registered for "
+                              "that function (DYNAMIC_COVER in lib/checks/c20.py)" % (c["var"], c["fn"], c["decl"]))
+    ctx.extra["captured_locals_needing_dynamic_check"] = nd
+    ctx.extra["generated_example"] = doc.get("example", {})
     for key, g in sorted(groups.items()):
         sites = sorted(set("%s (%s, %s, holds %s)" % (r["site"], r["fn"], r["kind"], r["held"] or "nothing") for r in g["rows"]))
         ctx.violation(key, "lock discipline broken for %s: %s" % (", ".join(x["field"] for x in g["fields"]), "; ".join(sites[:6])),
                       dict(kind="table-rows", fields=g["fields"], rows=g["rows"][:40],
                            note="each row is an access site of the field that does not hold the guard held at the field's other sites; "
                                 "the -race workloads of this check exercise these sites"))
+    return rows
 
 
 def run(ctx):
@@ -296,17 +372,26 @@ def run(ctx):
                     "Go race detector (happens-before, -race builds of the workloads)"]
     ctx.assumptions += [
         "executions respect the extracted table: each access of a tracked field is an instance of one of its rows and the mutex "
-        "instance held is the one guarding that object (instance association is not checked)",
+        "instance held is the one guarding that object (checked on the recorded executions only, by check_trace)",
         "init rows: constructor code before the first go statement is modelled as preceding the first Fork of the trace",
-        "sync.RWMutex read sections are modelled as exclusive sections (currentNATType): overlapping readers are outside the theorem",
+        "recorded traces (one schedule each): acquisition logged after Lock returns, release before Unlock, access just before its statement; "
+        "goroutines started by code that is not instrumented get their Fork at their first event; inst(x, lock name) chosen from what the "
+        "accessing thread holds and verified by the extracted checker at every access",
+        "captured locals: `needs-dynamic` = a channel operation / Wait / select / Once stands where it could order the pair; not proved that it does",
         "fields disciplined by goroutine confinement or channel hand-off are not in the table: only the -race runs observe them",
     ]
     ctx.extra["rule"] = ("evaluations = rows of the access table extracted from the repo's working tree (each row is one access site "
-                         "checked by discipline_ok inside Coq) + runs of -race workloads (workload x seed); distinct = distinct rows / runs")
-    ctx.extra["explanation"] = ("lockset theorem over all traces (Coq) + static access table regenerated from the source and checked by "
-                                "vm_compute + Go race detector on in-package workloads; no executable-model correspondence for this property")
-    table_leg(ctx)
-    race_leg(ctx)
+                         "checked by discipline_ok inside Coq) + captured-local verdicts + recorded traces run through the extracted "
+                         "check_trace (one case per package) + runs of -race workloads (workload x seed); distinct = distinct rows / cases / runs")
+    ctx.extra["explanation"] = ("lockset theorem over all traces with read/write lock modes (Coq) + static access table regenerated from the source "
+                                "and checked by vm_compute + recorded executions of instrumented builds checked by the extracted, proved-sound "
+                                "check_trace + Go race detector on in-package and whole-component workloads")
+    rows = table_leg(ctx)
+    # the two dynamic legs are independent of each other: recorded traces next to the race workloads
+    with concurrent.futures.ThreadPoolExecutor(max_workers=1) as ex:
+        fut = ex.submit(trace_leg, ctx, rows)
+        race_leg(ctx)
+        fut.result()
 
 
 def replay(ctx, doc):
@@ -319,3 +404,181 @@ def replay(ctx, doc):
             print("replaying workload %s env=%s (recorded key %s)" % (r.get("workload"), r.get("env"), v.get("key")))
     run(ctx)
     return ctx.finish()
+
+
+# ---------------------------------------------------------------- trace leg (recorded executions)
+
+TRACE_PKGS = [
+    dict(name="broker", pkg="./broker", cwd="broker", env=dict(VERIF_C20_N="12")),
+    dict(name="proxy", pkg="./proxy/lib", cwd="proxy/lib", env={}),
+    dict(name="server", pkg="./server/lib", cwd="server/lib", env={}),
+    dict(name="turbotunnel", pkg="./common/turbotunnel", cwd="common/turbotunnel", env={}),
+    dict(name="client", pkg="./client/lib", cwd="client/lib", env={}),
+]
+
+
+def trace_to_case(path, rows):
+    """ltrace dump -> (`locktrace check` case line, stats, per-event info for reporting).
+    Threads, lock instances and locations are numbered in order of appearance; the main thread is the goroutine
+    that enabled the recorder.  A goroutine's first event carries its creator: it is matched with the creator's
+    earliest unmatched go statement (fork point); without one (go statement in code that is not instrumented) a Fork
+    is inserted right there.  inst(x, name) = the lock instance of that static name the accessing thread holds at the
+    accesses of x (the checker verifies the choice at every access)."""
+    evs = []
+    for line in open(path):
+        k, g, p, name, par = line.rstrip("\n").split(" ")
+        evs.append((k, int(g), int(p), "" if name == "-" else name, int(par)))
+    names_of_class = {}
+    for r in rows:
+        st = names_of_class.setdefault(r["field"], set())
+        for h in r["held"]:
+            st.add(strip_r(h))
+    tid, out, pending = {}, [], {}
+    synthetic = 0
+
+    def T(g):
+        if g not in tid:
+            tid[g] = len(tid)
+        return tid[g]
+    lock_id, lock_name, loc_id, loc_class, classes = {}, {}, {}, {}, []
+    held, cand = {}, {}
+    for (k, g, p, name, par) in evs:
+        if k == "M":
+            T(g)
+        elif k == "N":
+            if g in tid:
+                continue
+            child = T(g)
+            q = pending.get(par, [])
+            if par in tid and q:
+                out[q.pop(0)] = ("f", tid[par], child, "")
+            else:
+                out.append(("f", tid.get(par, 0), child, "synthetic"))
+                synthetic += 1
+        elif k == "F":
+            out.append(("F", T(g), 0, ""))
+            pending.setdefault(g, []).append(len(out) - 1)
+        elif k in "arAR":
+            if p not in lock_id:
+                lock_id[p] = len(lock_id) + 1
+                lock_name[lock_id[p]] = name
+            l, t = lock_id[p], T(g)
+            h = held.setdefault(t, {})
+            if k in "aA":
+                h[l] = h.get(l, 0) + 1
+            else:
+                h[l] = h.get(l, 0) - 1
+                if h[l] <= 0:
+                    h.pop(l, None)
+            out.append((k, t, l, name))
+        elif k in "dwo":
+            key = (p, name)
+            if key not in loc_id:
+                loc_id[key] = len(loc_id) + 1
+                if name not in classes:
+                    classes.append(name)
+                loc_class[loc_id[key]] = classes.index(name)
+            x, t = loc_id[key], T(g)
+            for nm in names_of_class.get(name, ()):
+                now = set(l for l in held.get(t, {}) if lock_name[l] == nm)
+                if now:
+                    c = cand.get((x, nm))
+                    cand[(x, nm)] = now if c is None else ((c & now) or c)
+            hnames = sorted(set(lock_name[l] or "?" for l in held.get(t, {})))
+            out.append((k, t, x, "%s holding [%s]" % (name, ",".join(hnames))))
+    nt = len(tid)
+    final, info = [], []
+    for (k, a, b, note) in out:
+        if k == "F":
+            final.append("f%d.%d" % (a, nt))
+            nt += 1
+        else:
+            final.append("%s%d.%d" % (k, a, b))
+        info.append(note)
+    locs = []
+    for (p, name), x in sorted(loc_id.items(), key=lambda kv: kv[1]):
+        lks = ["%s=%d" % (nm, min(c)) for (xx, nm), c in sorted(cand.items()) if xx == x and c]
+        locs.append("%d:%d:%s" % (x, loc_class[x], "/".join(lks) or "-"))
+    line = "locktrace check %s %s %s" % (";".join(classes) or "-", ",".join(locs) or "-", ",".join(final) or "-")
+    stats = dict(events=len(final), accesses=sum(1 for e in out if e[0] in "dwo"), lock_ops=sum(1 for e in out if e[0] in "arAR"),
+                 threads=len(tid), locks=len(lock_id), locations=len(loc_id), fields=sorted(classes), synthetic_forks=synthetic)
+    return line, stats, final, info
+
+
+def trace_leg(ctx, rows):
+    """Record executions of the instrumented packages and run the extracted check_trace on them."""
+    t0 = time.time()
+    vlib.go_prepare()
+    base = json.load(open(os.path.join(vlib.GOB, "overlay.json")))["Replace"]
+    ov = json.load(open(os.path.join(INSTR, "overlay.json")))
+    base.update(ov["Replace"])
+    ovp = os.path.join(vlib.GOB, "overlay_instr.json")
+    data = json.dumps({"Replace": base}, indent=1, sort_keys=True)
+    if not os.path.exists(ovp) or open(ovp).read() != data:
+        open(ovp, "w").write(data)
+
+    def build(tp):
+        out = os.path.join(vlib.GOB, "bin", tp["name"] + "_ltrace.test")
+        rc, o, e = vlib.sh(["go", "test", "-c", "-vet=off", "-tags", "verif", "-modfile=" + os.path.join(vlib.GOB, "go.mod"), "-overlay", ovp,
+                            "-ldflags=-checklinkname=0", "-o", out, tp["pkg"]], cwd=vlib.REPO, env=vlib.GOENV, timeout=900)
+        if rc != 0:
+            raise vlib.GoBuildError("instrumented build of %s failed (locktable -instr wrote a copy that does not compile):\n%s" % (tp["pkg"], (o + e)[-3000:]))
+        return out
+
+    def record(tp, exe):
+        path = os.path.join(vlib.GOB, "ltrace_%s.txt" % tp["name"])
+        try:
+            os.remove(path)
+        except OSError:
+            pass
+        env = dict(os.environ, VERIF_LTRACE_OUT=path, VERIF_SEED=str(ctx.seed), **tp["env"])
+        rc, out, err = vlib.sh([exe, "-test.run", "^TestVerifC20Trace$", "-test.count=1"], cwd=os.path.join(vlib.REPO, tp["cwd"]), timeout=180, env=env)
+        return rc, out, err, path
+
+    with concurrent.futures.ThreadPoolExecutor(max_workers=3) as ex:
+        exes = list(ex.map(build, TRACE_PKGS))
+    with concurrent.futures.ThreadPoolExecutor(max_workers=3) as ex:
+        recs = list(ex.map(lambda a: record(*a), zip(TRACE_PKGS, exes)))
+    cases, metas = [], []
+    for tp, (rc, out, err, path) in zip(TRACE_PKGS, recs):
+        if not os.path.exists(path):
+            if "panic:" in err or "panic:" in out:
+                ctx.violation("driver-panic-trace-" + tp["name"], "trace recording of %s panicked: %s" % (tp["pkg"], (err or out)[-400:]),
+                              dict(kind="trace", pkg=tp["pkg"], stderr=err[-3000:]))
+            else:
+                ctx.not_shown("trace recording of %s produced no trace (rc=%d): %s" % (tp["pkg"], rc, (err or out)[-300:]))
+            continue
+        line, stats, final, info = trace_to_case(path, rows)
+        cases.append(line)
+        metas.append((tp, stats, final, info))
+    results = vlib.run_model(cases) if cases else []
+    summary, covered = [], set()
+    for (tp, stats, final, info), line, res in zip(metas, cases, results):
+        ctx.count(line, kind="recorded-trace")
+        summary.append(dict(package=tp["pkg"], verdict=res, **{k: v for k, v in stats.items() if k != "fields"}, fields=len(stats["fields"])))
+        if res.startswith("ok "):
+            covered |= set(stats["fields"])
+            continue
+        m = re.match(r"reject at=(\d+)", res)
+        i = int(m.group(1)) if m else -1
+        ev = final[i] if 0 <= i < len(final) else "?"
+        note = info[i] if 0 <= i < len(info) else ""
+        rp = os.path.join(vlib.REPLAYS, "C20-trace-%s-%d.case" % (tp["name"], ctx.seed))
+        os.makedirs(vlib.REPLAYS, exist_ok=True)
+        open(rp, "w").write(line + "\n")
+        if ev[:1] in "dwo":
+            cls = note.split(" ")[0]
+            key = key_from_text(cls, "race-" + re.sub(r"[^A-Za-z0-9_.]", "", cls.replace("[]", "")))
+            what = ("recorded execution of %s: event %d is a %s of %s with no row of the table that matches it (kind and locks held); "
+                    "the extracted check_trace rejects the trace" % (tp["pkg"], i, {"d": "read", "w": "write", "o": "atomic access"}[ev[0]], note))
+            ctx.violation(key, what, dict(kind="recorded-trace", pkg=tp["pkg"], event_index=i, event=ev, note=note, case_file=rp,
+                                          context=final[max(0, i - 12):i + 1]))
+        elif ev == "?" or not m:
+            ctx.not_shown("trace checker answered `%s` for the recorded trace of %s (case in %s)" % (res[:100], tp["pkg"], rp))
+        else:
+            ctx.not_shown("recorded trace of %s is not well formed at event %d (%s %s): lock semantics or thread creation not respected by the "
+                          "recorder (case in %s)" % (tp["pkg"], i, ev, note, rp))
+    ctx.extra["recorded_traces"] = summary
+    ctx.extra["recorded_trace_fields_covered"] = sorted(covered)
+    ctx.extra["recorded_trace_fields_not_covered"] = sorted(set(r["field"] for r in rows) - covered)
+    ctx.extra["trace_leg_s"] = round(time.time() - t0, 1)
